@@ -4,6 +4,7 @@ import (
 	"bytes"
 	"crypto/rsa"
 	"fmt"
+	"time"
 
 	"github.com/cloudflare/circl/oprf"
 
@@ -25,7 +26,7 @@ func init() {
 			"{type1 key A, type1 key A', type1 unknown key id, type1 malformed element (A), type1 malformed element (A'), type2 key B, type2 unknown key id, type2 malformed element} under 9 issuer configurations ({A}, {B}, {A,A',B}, two with an always-refusing issuer of the same type and truncated key id registered before / after the real one, none at all, the same issuer twice, another order), a sweep of the unknown-key-id kinds over every truncated key id no configured issuer carries, plus seeded sequences of length 5..40 and large batches of 63..128 requests (response lists around the 16384-byte varint boundary). " +
 			"Oracle = executable model: entry i present iff some configured issuer has the request's type and last key-id byte and its own Evaluate of that request succeeds; the output decodes, has exactly n entries in order, present entries finalize under state i to a token valid under that issuer's key (circl FullEvaluate / rsa.VerifyPSS), absent ones are empty; the succeeding requests alone give an all-present batch. " +
 			"distinct_nontrivial = distinct (configuration, kind sequence) batches containing at least one failing and one succeeding request",
-		Floors:      []string{"batches_checked", "entries_present_valid", "entries_absent", "mixed_batches", "all_failing_batches", "all_succeeding_batches", "isolation_rechecked", "large_batches", "batches_handed_over_in_memory", "unknown_key_id_sweep", "colliding_working_issuers_first_configured_serves"},
+		Floors:      []string{"batches_checked", "entries_present_valid", "entries_absent", "mixed_batches", "all_failing_batches", "all_succeeding_batches", "isolation_rechecked", "large_batches", "batches_handed_over_in_memory", "unknown_key_id_sweep", "colliding_working_issuers_first_configured_serves", "batch_evaluated_across_a_process_suspension"},
 		Assumptions: []string{"configured issuers of one type have pairwise different last key-id bytes and unknown keys differ from all of them (truncated-id collisions are outside the statement)"},
 		Run:         runC05,
 	})
@@ -58,6 +59,8 @@ type c05World struct {
 	cfgNames    []string
 	// forceID, when set, is the truncated key id the "unknown key id" kinds carry (sweep over every value)
 	forceID *byte
+	// freezeAtEvaluate: suspend the process for 2.6 s shortly after EvaluateBatch has started
+	freezeAtEvaluate bool
 }
 
 // refusingIssuer answers for a type and key id but refuses every request
@@ -307,7 +310,14 @@ func (w *c05World) runBatch(ci int, kinds []c05Kind, r *core.Rand, recheck bool,
 				return
 			}
 		}
+		var frozen chan struct{}
+		if w.freezeAtEvaluate {
+			frozen = freezeSelfAfter(25*time.Millisecond, 2600*time.Millisecond)
+		}
 		out, err := batched.NewBasicBatchedIssuer(cfg...).EvaluateBatch(dec)
+		if frozen != nil {
+			<-frozen
+		}
 		if err != nil {
 			bad("evaluate-error", "EvaluateBatch returned an error: "+err.Error())
 			return
@@ -444,6 +454,19 @@ func runC05(c *core.Ctx) {
 		}
 	}
 	c.Exhaustive(fmt.Sprintf("all request-kind sequences of length 1..%d over 8 kinds under 9 issuer configurations", maxLen))
+	// a large batch during which the whole process is suspended for 2.6 s (wall-clock time jumps, no work is lost): every
+	// entry is what the model says, as in any other batch
+	if c.Next() {
+		r := c.CaseRng()
+		kinds := make([]c05Kind, 120)
+		for j := range kinds {
+			kinds[j] = []c05Kind{k2B, k1A, k2B, k1Ap}[j%4]
+		}
+		w.freezeAtEvaluate = true
+		w.runBatch(2, kinds, r, false, false)
+		w.freezeAtEvaluate = false
+		c.Class("batch_evaluated_across_a_process_suspension")
+	}
 	// many batches under the configuration with two working issuers sharing a truncated key id (an order that depends on
 	// map iteration, or "the last one wins", shows only in some of them)
 	for rep := 0; rep < c.Pick(48, 600); rep++ {
